@@ -186,32 +186,87 @@ def sym(prog, raw_sites=frozenset(), path=()):
     raise ValueError(k)
 
 
-def num(prog, env):
+def _rat(v):
+    return isinstance(v, (int, F)) and not isinstance(v, bool)
+
+
+def _xbin(op, a, b):
+    """The operator on exact rationals: int/int and negative integer powers stay Fractions."""
+    if op == "/" and _rat(a) and _rat(b):
+        return F(a) / F(b)
+    if op == "**" and _rat(a) and isinstance(b, int) and not isinstance(b, bool) and b < 0:
+        return F(a) ** b
+    if op == "**" and _rat(a) and _rat(b) and a == 1:
+        return F(1)     # Fraction ** Fraction falls back to floats
+    return BIN[op](a, b)
+
+
+def num(prog, env, exact=False):
+    """The program on plain numbers.  exact=True is the same computation with the dyadic float
+    constants and int/int quotients kept as exact rationals (a float here is only ever a
+    by-product; // and % amplify its rounding error to a whole unit)."""
     k = prog[0]
     if k == "leaf":
-        return KINDS[prog[1]][1](env)
+        v = KINDS[prog[1]][1](env)
+        return F(v) if exact and isinstance(v, float) else v
     if k == "bin":
-        return BIN[prog[1]](num(prog[2], env), num(prog[3], env))
+        a, b = num(prog[2], env, exact), num(prog[3], env, exact)
+        return _xbin(prog[1], a, b) if exact else BIN[prog[1]](a, b)
     if k == "un":
-        return UN[prog[1]](num(prog[2], env))
+        return UN[prog[1]](num(prog[2], env, exact))
     if k == "cmp":
-        return CMPM[prog[1]](num(prog[2], env), num(prog[3], env))
+        return CMPM[prog[1]](num(prog[2], env, exact), num(prog[3], env, exact))
     if k == "logic":
-        a = bool(num(prog[2], env))
+        a = bool(num(prog[2], env, exact))
         if prog[1] == "not_":
             return not a
-        b = bool(num(prog[3], env))
+        b = bool(num(prog[3], env, exact))
         return (a and b) if prog[1] == "and_" else (a or b)
     if k == "call":
-        args = [num(c, env) for c in prog[2:]]
+        args = [num(c, env, exact) for c in prog[2:]]
         if prog[1] == "kw":
             return env["g"](args[0], k=args[1])
         return env["f"](*args)
     if k == "index":
-        return env["a"][num(prog[1], env)]
+        return env["a"][num(prog[1], env, exact)]
     if k == "attr":
         return env["o"].attr
     raise ValueError(k)
+
+
+def agrees(got, prog, env, want):
+    """The tree's outcome is the plain computation's value, or -- when a float by-product sits
+    below a discontinuous operator -- the value of the same computation on exact rationals."""
+    if got[0] != "v":
+        return False
+    if refsem.values_equal(got[1], want):
+        return True
+    if "float" in _types_below(prog, env):
+        try:
+            wx = num(prog, env, exact=True)
+        except RecursionError:
+            raise
+        except Exception:  # noqa: BLE001
+            return False
+        return refsem.values_equal(got[1], wx)
+    return False
+
+
+def _types_below(prog, env):
+    out = set()
+
+    def go(q):
+        try:
+            out.add(type(num(q, env)).__name__)
+        except RecursionError:
+            raise
+        except Exception:  # noqa: BLE001
+            pass
+        for c in q[1:]:
+            if isinstance(c, tuple) and c and isinstance(c[0], str):
+                go(c)
+    go(prog)
+    return out
 
 
 def sites(prog, path=()):
@@ -284,7 +339,8 @@ def c_program(ctx, case):
             return
         if not has_bool(prog):
             ctx.fail("C03.program", case, f"refused:{type(e).__name__}:{_psig(prog)}",
-                     f"program {show(prog)} could not be built on symbols: {type(e).__name__}: {e}")
+                     f"program {show(prog)} could not be built on symbols: {type(e).__name__}: {e}",
+                     finding=_refusal_finding(ctx, prog))
         return
     ops = prog_ops(prog)
     rng = ctx.sub_rng("env", repr(prog))
@@ -299,7 +355,9 @@ def c_program(ctx, case):
         ctx.case(None)
         ctx.count("compared")
         got = refsem.outcome(lambda: refsem.ev(tree, env))
-        if got[0] == "v" and refsem.values_equal(got[1], want):
+        if agrees(got, prog, env, want):
+            if not (got[0] == "v" and refsem.values_equal(got[1], want)):
+                ctx.count("agreed_only_with_exact_rational_computation")
             continue
         # classify: is it one of the three known shortcuts?  explanation test = rebuild with
         # the raw node constructor at exactly the classified sites and require agreement.
@@ -310,13 +368,44 @@ def c_program(ctx, case):
             try:
                 tree2 = sym(prog, raw)
                 got2 = refsem.outcome(lambda: refsem.ev(tree2, env))
-                if got2[0] == "v" and refsem.values_equal(got2[1], want):
+                if agrees(got2, prog, env, want):
                     finding = _which_site(prog, st, env, want)
             except Exception:
                 finding = None
         ctx.fail("C03.program", case, f"value:{_psig(prog)}",
                  f"program {show(prog)} built {tree!s} [{G.src(tree)}]; env x={env['x']} y={env['y']}: "
                  f"tree evaluates to {short(got)}, plain computation gives {want!r}", finding=finding)
+
+
+def _refusal_finding(ctx, prog):
+    """A shortcut that folds to a wrong *number* can make the next (plain Python) operator raise
+    (0.0 ** Sum((0,)) folds to 0, then 0 ** -1).  Attributed to a finding only if building with the
+    raw node at that one class of sites succeeds and agrees wherever the numbers are defined."""
+    st = sites(prog)
+    for fid, opname in ((KF_FLOORDIV1, "//"), (KF_MOD1, "%"), (KF_ZEROPOW, "**")):
+        raw = frozenset(pth for pth, o in st if o == opname)
+        if not raw:
+            continue
+        try:
+            t = sym(prog, raw)
+        except RecursionError:
+            raise
+        except Exception:  # noqa: BLE001
+            continue
+        ok, cond = True, False
+        for env in envs(prog_ops(prog), ctx.sub_rng("env", repr(prog)), 12):
+            try:
+                want = num(prog, env)
+            except RecursionError:
+                raise
+            except Exception:  # noqa: BLE001
+                continue
+            g = refsem.outcome(lambda: refsem.ev(t, env))
+            ok = ok and agrees(g, prog, env, want)
+            cond = cond or _site_condition(prog, raw, opname, env)
+        if ok and cond:
+            return fid
+    return None
 
 
 def _which_site(prog, st, env, want):
@@ -330,7 +419,7 @@ def _which_site(prog, st, env, want):
             g = refsem.outcome(lambda: refsem.ev(t, env))
         except Exception:
             continue
-        if g[0] == "v" and refsem.values_equal(g[1], want) and _site_condition(prog, raw, opname, env):
+        if agrees(g, prog, env, want) and _site_condition(prog, raw, opname, env):
             return fid
     return None
 
